@@ -1,6 +1,6 @@
 """C18 — snapshot operations honour the tree lock (schedules).
 
-Four kinds of cases, all evaluated by the Coq lock machine (CaseLock.run18) and by the code:
+Five kinds of cases, all evaluated by the Coq lock machine (CaseLock.run18) and by the code:
 
   sched  arbitrary thread programs (Acq/Rel/Read/Write) under an arbitrary schedule, re-executed by REAL
          threads on the `_lock` object of a real nutree Tree, one event per scheduler tick
@@ -15,7 +15,15 @@ Four kinds of cases, all evaluated by the Coq lock machine (CaseLock.run18) and 
   owner  the owner nests `with tree:` n times and calls the operation inside (no deadlock), a contender
          probes the lock in the middle (must be refused) and at the end (must be granted).
 
-Waiting (a bounded `Event.wait`) can only fail to detect a violation, it never raises a false alarm.
+  free   FREE-RUNNING writer threads (sections of two mutations, some nested) and reader threads calling the
+         operations; the global history (Acq after it was granted, Rel before it is given up, structure reads,
+         mutations) is recorded and replayed on the machine: it must be one of its behaviours (every recorded
+         tick enabled) and the versions the readers saw must be the machine's; oracle: no snapshot with an odd
+         number of a writer's nodes, nothing executed without the lock.  (Not replayable bit for bit: the
+         interleaving is the scheduler's.)
+
+Waiting for something that must NOT happen (0.12 s) can only fail to detect; waiting for something that
+must happen is bounded by 20 s (a false alarm needs a 20 s stall of a trivial operation).
 threading.RLock, the GIL and the atomicity of single Python reads are the runtime: modelled, not verified.
 """
 from __future__ import annotations
@@ -142,9 +150,10 @@ _STATE = {"deadlock_seen": False}
 
 
 def T(long):
-    """Timeout for something that must happen: generous, but short once a deadlock was seen in this run
-    (a non-re-entrant lock makes every nested call hang; one long wait is enough to establish that)."""
-    return 0.25 if _STATE["deadlock_seen"] else long
+    """Timeout for something that MUST happen: very generous (the machine may be heavily loaded; a false
+    alarm needs a 20 s stall), but short once a deadlock was seen in this run (a non-re-entrant lock makes
+    every nested call hang; one long wait is enough to establish that)."""
+    return 0.5 if _STATE["deadlock_seen"] else long
 
 
 def guarded(fn, timeout):
@@ -197,7 +206,7 @@ def record(tree, fn):
         _ARM.update(tree=tree, log=log, tid=threading.get_ident())
         return fn()
 
-    finished, res = guarded(body, T(3.0))
+    finished, res = guarded(body, T(20))
     _ARM.update(tree=None, log=None, tid=None)
     return list(log), res, finished
 
@@ -403,7 +412,7 @@ def label_of(tree, op):
 
 
 def run_op_guarded(tree, op, tmp):
-    ok, res = guarded(lambda: run_op(tree, op, tmp), T(3.0))
+    ok, res = guarded(lambda: run_op(tree, op, tmp), T(20))
     return res if ok else "ERR:hang"
 
 
@@ -483,7 +492,7 @@ class _Worker(threading.Thread):
 
     def call(self, fn):
         self.inq.put(fn)
-        return self.outq.get(timeout=20)
+        return self.outq.get(timeout=120)
 
 
 _POOL: list[_Worker] = []
@@ -647,7 +656,7 @@ class Prop:
     case_module = "CaseLock"
     case_vo = "theories/Cases/CaseLock.vo"
     run_fn = "run18"
-    shard = 250
+    shard = 700
     rule = ("sched: families of 1-4 thread programs over Acq/Rel/Read/Write (75% disciplined - bracketed with nesting <= 3, a quarter of "
             "the threads with extra unlocked reads - and 25% arbitrary, "
             "to exercise refused/erroneous steps) under random schedules (bursty, with ticks of finished and non-existent "
@@ -656,7 +665,7 @@ class Prop:
             "deep/shallow, to_dict_list, save to stream/path, to_dotfile to stream/path, `with tree:`) x {Tree, TypedTree} x "
             "tree shapes x (writer mutation counts | nesting depths).  distinct = distinct case description; non-trivial = "
             "sched: some tick was refused or some thread nested; trace/park/owner: the trace contains a read")
-    exhaustive_note = "all schedules in {0,1}^(total+1) for three two-thread program families (quick); + one three-thread family (thorough)"
+    exhaustive_note = "all schedules in {0,1}^8 (quick) / {0,1}^(total+1) (thorough) for three two-thread program families; + {0,1,2}^8 for one three-thread family (thorough)"
     assumptions = [
         "threading.RLock, the GIL and the atomicity of one Python read are the runtime: modelled by the lock machine, not verified",
         "a structure read = an access to Tree._root/_node_by_id/_nodes_by_data_id or Node._children/_parent of a node of the "
@@ -721,8 +730,8 @@ class Prop:
         for fam in fams:
             total = sum(len(p) for p in fam)
             n = total + 1
-            if not thorough and n > 9:
-                n = 9
+            if not thorough and n > 8:
+                n = 8
             for s in itertools.product(range(2), repeat=n):
                 yield dict(k="sched", ps=[list(p) for p in fam], sched=list(s))
         if thorough:
@@ -852,15 +861,15 @@ class Prop:
         tw = threading.Thread(target=writer, daemon=True)
         tr_ = threading.Thread(target=reader, daemon=True)
         tw.start()
-        parked_ok = parked.wait(T(5))
+        parked_ok = parked.wait(T(20))
         if not parked_ok:
             _STATE["deadlock_seen"] = True
         tr_.start()
-        started.wait(T(5))
+        started.wait(T(20))
         early = done.wait(0.12)            # must NOT happen; a slow reader is merely not detected
         go.set()
-        tw.join(T(10))
-        late = done.wait(T(10))
+        tw.join(T(20))
+        late = done.wait(T(20))
         tr_.join(T(1))
         free = pool(1)[0].call(lambda: (tree._lock.acquire(blocking=False) and (tree._lock.release() or True)) or False)
         rfin = run_op_guarded(tree, op, tmp) if free else "ERR:locked"
@@ -913,7 +922,7 @@ class Prop:
 
         def writer(j):
             ids[threading.get_ident()] = j
-            barrier.wait(5)
+            barrier.wait(30)
             for sec in range(sections):
                 with tree:
                     add(f"w{j}_{2 * sec}", j)
@@ -927,7 +936,7 @@ class Prop:
 
         def reader(j, op):
             ids[threading.get_ident()] = j
-            barrier.wait(5)
+            barrier.wait(30)
             for _ in range(calls):
                 results[j].append(run_op(tree, op, tmp))
                 time.sleep(0.0002)
@@ -938,7 +947,7 @@ class Prop:
             th.start()
         alive = False
         for th in ths:
-            th.join(T(15))
+            th.join(T(30))
             alive = alive or th.is_alive()
         if alive:
             _STATE["deadlock_seen"] = True
@@ -1017,7 +1026,7 @@ class Prop:
 
         to = threading.Thread(target=owner, daemon=True)
         to.start()
-        op_ok = op_done.wait(T(3))
+        op_ok = op_done.wait(T(20))
         if not op_ok:
             _STATE["deadlock_seen"] = True
         contender = pool(1)[0]
@@ -1030,7 +1039,7 @@ class Prop:
 
         mid_granted = contender.call(probe)
         probe_done.set()
-        fin = finished.wait(T(3) if op_ok else 0.25)
+        fin = finished.wait(T(20) if op_ok else 0.5)
         end_granted = contender.call(probe)
         res = box.get("res")
         seen = [0] if (res == r0 or (not usable and res is not None)) else [-1]
